@@ -152,7 +152,12 @@ def run_case(case):
         elif case.get("prior_open") == "other-rpc":
             harness.guard(harness.open_tree, prod.url, use_cache=False, records_per_chunk=case["rpc"] % 7 + 1)
         vtrace.STORE.clear()
-        tree, err = harness.guard(ceos_alos2.open_alos2, prod.url, backend_options=options)
+        # (reads that the library hands to helper threads are not served in submission order)
+        vtrace.STORE.delay_foreign_reads = 0.05
+        try:
+            tree, err = harness.guard(ceos_alos2.open_alos2, prod.url, backend_options=options)
+        finally:
+            vtrace.STORE.delay_foreign_reads = 0
         events = vtrace.STORE.snapshot()
         if case.get("create_cache"):
             common.drop_user_cache(prod.url, info["names"]["sar_imagery"])
